@@ -157,7 +157,7 @@ def gen_case(rnd, tier, index):
         elif rnd.random() < 0.5:
             v = hostile_value(rnd, allow_formula_text=formula_text)
         else:
-            v = c01.draw_write(rnd, cur.get(a, dag.cell[a].get('v')))
+            v = c01.draw_write(rnd, cur.get(a, dag.cell[a].get('v')), dag.cell[a].get('w'))
         cur[a] = v
         return {'op': 'set', 'a': a, 'v': v}
 
